@@ -295,6 +295,10 @@ template <class TArchive> void SerializeArray(TArchive& archive, ScriptArr& arr)
 template <class F>
 void WithKey(const JVal& op, F&& f)
 {
+#ifdef VH_CSTR_KEYS
+	// archives whose key API has `const char*` overloads (JSON, XML): string literal style key
+	if (op.HasMember("ks") && op.HasMember("kc") && op["kc"].GetBool()) { const std::string key = BytesFromJson(op["ks"]); f(key.c_str()); return; }
+#endif
 	if (op.HasMember("ks")) f(BytesFromJson(op["ks"]));
 	else if (op.HasMember("ki")) f(static_cast<int64_t>(op["ki"].GetInt64()));
 	else if (op.HasMember("ku")) f(static_cast<uint64_t>(op["ku"].GetUint64()));
